@@ -49,12 +49,42 @@ def decide(run, oid, fn, lhs, rhs, case, numeric_replay=None, fields=None):
     return False
 
 
-def decide_true(run, oid, fn, cond, what, case, fields=None):
+def decide_true(run, oid, fn, cond, what, case, fields=None, numeric_replay=None):
     if cond:
         run.oblig(oid, fn, "S(symx)", "discharged", "exact polynomial normal form")
         return True
     run.oblig(oid, fn, "S(symx)", "violated", "exact polynomial normal form")
     f = {"obligation": oid}
     f.update(fields or {})
-    run.violation(oid, fn, what, fields=f, replay={"case": case}, no_input=True, engine="S(symx)")
+    native, fired = None, False
+    if numeric_replay is not None:
+        try:
+            fired, native = numeric_replay()
+        except Exception as e:
+            native = f"numeric replay raised {e!r}"
+    run.violation(oid, fn, what, fields=f, replay={"case": case, "native_numeric_replay": native}, no_input=not fired, engine="S(symx)")
     return False
+
+
+def native_pair(fun, how):
+    """numeric replay of an identity: fun() -> (lhs, rhs) on float tensors; fires when they differ (or when the real code raises)"""
+    def f():
+        try:
+            lhs, rhs = fun()
+        except Exception as e:
+            return True, {"raised_on_float_tensors": repr(e), "how": how}
+        lhs, rhs = np.asarray(lhs, dtype=complex), np.asarray(rhs, dtype=complex)
+        err = float(np.abs(lhs - rhs).max()) if lhs.shape == rhs.shape else float("inf")
+        return err > 1e-9 * max(1.0, float(np.abs(rhs).max()) if rhs.size else 1.0), {"numeric_error_on_random_complex_values": err, "how": how}
+    return f
+
+
+def native_cond(fun, how):
+    """numeric replay of a boolean clause: fun() -> (holds, detail) on float tensors; fires when it does not hold (or the real code raises)"""
+    def f():
+        try:
+            ok, detail = fun()
+        except Exception as e:
+            return True, {"raised_on_float_tensors": repr(e), "how": how}
+        return (not ok), {"observed_on_float_tensors": detail, "how": how}
+    return f
